@@ -90,6 +90,13 @@ CLAIMED = {
         note=TB + "regex is an oracle; CRLF texts excluded here (a \\r\\n cluster is not a line break for the editor).",
         technique="Coq proof (filter/rev/NoDup reasoning, prefix-stability of line starts) + CLI oracles",
         design="§9 C13"),
+    "C11": dict(
+        text="Theorems (every editor: what a key does is a parameter; key strings read by the byte-level reader model, aliases or raw, multi-byte): if every command of a key string ends at a command boundary (where the end-of-keys submit and the mode reset are the identity), every grouping of the commands into consecutive -m arguments - all 2^(k-1) splittings - yields the state of the keys fed in one go; "
+             "without --keep-mode the next argument always starts from the reset mode, with it nothing is reset. Checks run the real execute() at the CLI: sequences of 2..8 boundary-ending commands (probed on the implementation) under all/sampled splittings, buffer with a cursor marker compared; "
+             "first arguments ending in pending counts/registers/operators or open Insert/Replace/Visual modes; --keep-mode carry-over and submitted Ex/Search lines; the boundary contract validated on state dumps.",
+        note=TB + "Per-key behaviour of the modes is a parameter (partial); with --keep-mode a pending operator also persists: known finding keep-mode-pending-seq.",
+        technique="Coq proof (fold over key events on top of the C15 reader theorem) + CLI differential over splittings",
+        design="§9 C11"),
 }
 
 NOT_YET = {}
